@@ -111,8 +111,11 @@ func randSession(r *rand.Rand, d string, hostile int) (units [][]byte, class str
 	ver := r.Intn(2)
 	phone := randPhone(r, ver)
 	ser := r.Intn(65536)
+	constSerial := r.Intn(6) == 0 // a terminal that does not advance its serial number: every control frame is still a frame of its own
 	ctl := func(id int, body []byte) []byte {
-		ser = (ser + 1) % 65536
+		if !constSerial {
+			ser = (ser + 1) % 65536
+		}
 		return buildFrame(hdrSpec{id: id, serial: ser, ver: ver, verbyte: 1, phone: phone, body: body})
 	}
 	nf := 1 + r.Intn(3)
@@ -154,7 +157,35 @@ func randSession(r *rand.Rand, d string, hostile int) (units [][]byte, class str
 			off += n
 		}
 	}
+	// a terminal may re-split on a resend: a piece [off, off+n) that was sent is sent again as the longer piece [off, off+n+m) and
+	// the piece [off+n, off+n+m) is never sent on its own (the later chunk replaces the earlier one at that offset)
+	resplit := hostile == 0 && r.Intn(4) == 0
+	var first, merged piece
+	if resplit {
+		resplit = false
+		for k := 0; k+1 < len(pieces); k++ {
+			if a, b := pieces[k], pieces[k+1]; a.f == b.f && a.off+a.n == b.off {
+				first, merged = a, piece{a.f, a.off, a.n + b.n}
+				pieces[k+1] = merged
+				resplit = true
+				break
+			}
+		}
+	}
 	r.Shuffle(len(pieces), func(a, b int) { pieces[a], pieces[b] = pieces[b], pieces[a] })
+	if resplit { // mostly in the order that ends well: the short piece first, the longer one later
+		ia, ib := -1, -1
+		for k, p := range pieces {
+			if p == first {
+				ia = k
+			} else if p == merged {
+				ib = k
+			}
+		}
+		if ia > ib && ia >= 0 && ib >= 0 && r.Intn(4) != 0 {
+			pieces[ia], pieces[ib] = pieces[ib], pieces[ia]
+		}
+	}
 	// hold some pieces back so that an early 0x1212 reports gaps, then resupply
 	hold := 0
 	if r.Intn(2) == 0 && len(pieces) > 1 {
